@@ -292,7 +292,7 @@ fn check_inner(c: &Case) -> Result<Stats, (String, String)> {
 }
 
 pub fn run(ctx: &Ctx, st: &mut Stats) -> Vec<Violation> {
-    run_proptest(ctx, st, "images", ctx.pick(6000, 200_000), strategy, check)
+    run_proptest(ctx, st, "images", ctx.cases(12_000, 300_000), strategy, check)
 }
 
 pub fn replay(v: &Value) -> Result<(), String> {
